@@ -34,7 +34,7 @@ pub fn draw_sched(rng: &mut Rng, rows: usize) -> SchedSpec {
         12 => SchedKind::NewestFirst,
         _ => SchedKind::StallOne { victim: rng.below(rows.clamp(1, 16)) as u32 },
     };
-    SchedSpec { kind, seed }
+    SchedSpec { kind, seed, hold: crate::sched::hold_for_seed(seed) }
 }
 
 /// CPU counts for one input with `rows` rows.
